@@ -18,7 +18,8 @@ def run(tier, seed, model):
                  "arguments) run on the real VNCDoToolClient over an in-memory transport; bytes parsed by an independent "
                  "RFC 6143 parser and compared with the spec state, and with the extracted Coq model; non-trivial = "
                  "history containing at least one in-domain operation; distinct by full history")
-    clientops.run_campaign(camp, model, rng, n, clientops.ALL_KINDS, 40, "C19")
+    # (forced caps - which extra key events a capital stands for - is C04's subject: not judged here)
+    clientops.run_campaign(camp, model, rng, n, clientops.ALL_KINDS, 40, "C19", force_caps_choices=(False,))
     # every Latin-1 character, alone and all 256 together: pasted text arrives as its Latin-1 bytes
     ops = [("paste", chr(i)) for i in range(256)] + [("paste", "".join(chr(i) for i in range(256)) * 3)]
     real, _final = clientops.run_real(8, 8, False, False, ops)
